@@ -23,4 +23,8 @@ def run(ctx):
     from rules import timing as TM
     ctx.rule("R-WAKEUP-MIN", "the timer pass keeps the earliest pending deadline as its next wake-up", floor=1)
     TM.wakeup_min(ctx, ctx.prog.func("ElectronicControlUnit", "_async_job_thread"), tag="ECU ")
+    from rules import generic as GN
+    ctx.rule("R-LOCAL-DEFINED", "no path of an ECU function reads a local before assigning it (an exception in the timer pass ends the job thread)", floor=15)
+    GN.local_defined(ctx, [f for f in ctx.prog.funcs.values() if f.cls is not None and f.cls.name == "ElectronicControlUnit"],
+                     why=" - raised in the timer pass it ends the job thread and no timer fires any more")
     return "registry iteration/removal discipline and timer arithmetic of ElectronicControlUnit"
